@@ -23,6 +23,16 @@ CHECKS = {
                 text="TLC checks FragBound/FragNumbering on the Tunnel spec; every downstream data answer of the real server "
                      "is judged by TLC against the MonFragsize monitor (size bound, numbering, last flag).",
                 technique="TLA+ spec + TLC model checking; TLC trace validation of real executions (MonFragsize)"),
+    "C02": dict(cat="model_checking", ref="DESIGN.md §6 C02",
+                text="TLC checks InOrderOnce and DoneDelivered (no silent loss on a prompt, in-order path, with spurious "
+                     "timeouts) on the Tunnel spec; real runs are judged on virtual time by the MonProgress monitor: strict "
+                     "exactly-once/in-order/30 s deadline on clean paths, delivery within 30 s after fault prefix + 15 s settle, no exit.",
+                technique="TLA+ spec + TLC model checking; TLC trace validation of timed real executions (MonProgress)"),
+    "C16": dict(cat="model_checking", ref="DESIGN.md §6 C16",
+                text="TLC explores duplicate deliveries (same/new id, flipped case) on the Tunnel spec; in simulated runs a relay "
+                     "re-delivers chosen queries at chosen distances and TLC judges each against the MonRedelivery monitor "
+                     "(stream positions from users[] unchanged inside the windows, cached repeat answered with the same payload).",
+                technique="TLA+ spec + TLC model checking; TLC trace validation of real executions (MonRedelivery)"),
 }
 
 NOT_YET = "check not built yet in this revision (work in progress; see DESIGN.md §6 for the plan)"
